@@ -4820,6 +4820,17 @@ fn announce_service_on_intf(
     Ok(false)
 }
 
+/// Appends `suffix` to `base`, shortening `base` (at a character boundary) as needed
+/// so that the result still fits in a DNS label of 63 bytes.
+fn label_with_suffix(base: &str, suffix: &str) -> String {
+    const LABEL_LEN_MAX: usize = 63;
+    let mut end = base.len().min(LABEL_LEN_MAX.saturating_sub(suffix.len()));
+    while !base.is_char_boundary(end) {
+        end -= 1;
+    }
+    format!("{}{}", &base[..end], suffix)
+}
+
 /// Returns a new name based on the `original` to avoid conflicts.
 /// If the name already contains a number in parentheses, increments that number.
 ///
@@ -4833,7 +4844,7 @@ fn name_change(original: &str) -> String {
         return format!("{original} (2)");
     };
 
-    let mut new_name = format!("{first_part} (2)");
+    let mut new_name = label_with_suffix(first_part, " (2)");
 
     // check if there is already has `(<num>)` suffix.
     if let Some(paren_pos) = first_part.rfind(" (") {
@@ -4845,8 +4856,11 @@ fn name_change(original: &str) -> String {
                 let num_start = paren_pos + 2; // Skip " ("
                                                // Try to parse the number between parentheses
                 if let Ok(number) = first_part[num_start..absolute_end_pos].parse::<u32>() {
-                    let base_name = &first_part[..paren_pos];
-                    new_name = format!("{} ({})", base_name, number + 1)
+                    // If the number cannot be incremented, append a new suffix instead.
+                    if let Some(next) = number.checked_add(1) {
+                        let base_name = &first_part[..paren_pos];
+                        new_name = label_with_suffix(base_name, &format!(" ({next})"));
+                    }
                 }
             }
         }
@@ -4869,14 +4883,17 @@ fn hostname_change(original: &str) -> String {
         return format!("{original}-2");
     };
 
-    let mut new_name = format!("{first_part}-2");
+    let mut new_name = label_with_suffix(first_part, "-2");
 
     // check if there is already a `-<num>` suffix
     if let Some(hyphen_pos) = first_part.rfind('-') {
         // Try to parse everything after the hyphen as a number
         if let Ok(number) = first_part[hyphen_pos + 1..].parse::<u32>() {
-            let base_name = &first_part[..hyphen_pos];
-            new_name = format!("{}-{}", base_name, number + 1);
+            // If the number cannot be incremented, append a new suffix instead.
+            if let Some(next) = number.checked_add(1) {
+                let base_name = &first_part[..hyphen_pos];
+                new_name = label_with_suffix(base_name, &format!("-{next}"));
+            }
         }
     }
 
